@@ -21,16 +21,20 @@ func NewPreviewReader(l zerolog.Logger) previewReader {
 }
 
 func (pr *previewReader) RenderPreview(r io.Reader, h meta.PreviewHeader) error {
-	img := make([]byte, h.Size)
+	// The size field comes from the file: grow the image as data arrives
+	// instead of allocating whatever it claims up front.
+	img := make([]byte, 0, 64*1024)
+	var chunk [2048]byte
 	offset := uint32(0)
-	maxSize := uint32(2048)
+	maxSize := uint32(len(chunk))
 	for {
 		maxOffset := offset + maxSize
-		if h.Size < maxOffset {
+		if h.Size < maxOffset || maxOffset < offset {
 			maxOffset = h.Size
 		}
 
-		readLength, err := r.Read(img[offset:maxOffset])
+		readLength, err := r.Read(chunk[:maxOffset-offset])
+		img = append(img, chunk[:readLength]...)
 		if err != nil {
 			if err == io.EOF {
 				break
